@@ -17,8 +17,14 @@ META = dict(
     evaluations_counter="cases",
     min={"cases": 3000, "judged:linear": 2000, "judged:exact": 800, "route:fn:qbytes_mm": 100, "route:fn:qbytes_int_mm": 100,
          "route:fn:qbytes_int8pack_mm": 20, "route:op:qbytes_mm": 500, "judged:mm": 300, "judged:bmm": 100},
-    anchors=["tensor/qtensor_func.py:QTensorLinear.forward", "library/qbytes_mm.py:qbytes_mm_impl_cpu",
-             "library/qbytes_mm.py:qbytes_mm", "library/qbytes_mm.py:qbytes_int_mm"],
+    anchors=["tensor/qtensor_func.py:QTensorLinear.forward",
+             "library/qbytes_mm.py:qbytes_mm_impl_cpu",
+             "library/qbytes_mm.py:qbytes_mm",
+             "library/qbytes_mm.py:qbytes_int_mm",
+             "library/qbytes_mm.py:qbytes_int8pack_mm",
+             "library/qbytes_mm.py:int_mm",
+             "tensor/qbytes_ops.py:mm",
+             "tensor/qbytes_ops.py:bmm"],
     rule="case = operand set (rows x in_features x out_features x batch rank x dtype x activation kind {float, qint8, "
          "e4m3, e5m2} x weight kind {qint8/e4m3/e5m2 per-axis, per-tensor, qint4, qint2 with/without groups} x bias) in "
          "mode 'exact' (small integer codes, power-of-two scales, dyadic bias: result must be bit-identical to the "
